@@ -34,9 +34,9 @@ class C14(Prop):
         # group "xproc": the same seeds, reference run only, in few long-lived interpreters with another hash seed:
         # every case there runs after a different set of earlier calls than in the main group
         if tier == "quick":
-            return {"nojit": dict(count=105, workers=15, seed_tag="all"),
-                    "xproc": dict(mode="nojit", count=105, workers=1, seed_tag="all", hashseed="4242"),
-                    "_soft_deadline": 90}
+            return {"nojit": dict(count=90, workers=15, seed_tag="all"),
+                    "xproc": dict(mode="nojit", count=90, workers=1, seed_tag="all", hashseed="4242"),
+                    "_soft_deadline": 120}
         return {"nojit": dict(count=6000, workers=14, seed_tag="all"),
                 "xproc": dict(mode="nojit", count=6000, workers=2, seed_tag="all", hashseed="4242"),
                 "_soft_deadline": 1500}
@@ -44,7 +44,7 @@ class C14(Prop):
     def base_case(self, seed):
         case = workload.gen_case("C14", seed, lambda_forms=("float", "float", "matrix_const", "matrix_sym"),
                                  beta_forms=("int", "float", "vector_const", "vector_rand"), big_nw_p=0.0,
-                                 limits=(1, 2, 3, 5, 20))
+                                 limits=(1, 2, 3, 5, 8), T=(None, 90))
         # reference: FIFO, one worker, warm caches, fresh history
         case["mp_switch"] = False
         case["pool"] = dict(kind="sim", sched_seed=0, bias="fifo", eager_pickle_p=1.0, cold_cache=False,
@@ -55,7 +55,7 @@ class C14(Prop):
     def variants(self, case, seed, tier, ref_out):
         r = core.rng(seed, "C14", "variants")
         vs = []
-        nsched = 5 if tier == "quick" else 8
+        nsched = 4 if tier == "quick" else 8
         for s in range(nsched):
             c = workload.clone(case)
             c["mp_switch"] = True
@@ -134,7 +134,10 @@ class C14(Prop):
             rec["sig"] = ["xproc", seed % 10 ** 9]
             rec.probe("xproc_reference_runs")
             return rec
+        import time as _t
+        _t0 = _t.time()
         ref = runner.execute(case)
+        ref_wall = _t.time() - _t0
         rec.absorb(ref)
         fp0 = fingerprint(ref)
         rec["ref_fp"] = list(fp0)
@@ -148,7 +151,17 @@ class C14(Prop):
                                            dict(ref=case, variant=case, what="repeat")))
         orders = set()
         nontrivial = False
-        for what, c in self.variants(case, seed, tier, ref):
+        variants = self.variants(case, seed, tier, ref)
+        if tier == "quick" and ref_wall > 1.0:
+            # an expensive configuration (slowly converging solver): keep one variant of each kind in the quick tier
+            seen_kinds, kept = {}, []
+            for what, c in variants:
+                if seen_kinds.get(what, 0) < (2 if what == "sched" else 1):
+                    seen_kinds[what] = seen_kinds.get(what, 0) + 1
+                    kept.append((what, c))
+            variants = kept
+            rec.probe("expensive_case_fewer_variants")
+        for what, c in variants:
             out = runner.execute(c, record=False)
             rec.absorb(out)
             orders.add(trace.finish_signature(out))
